@@ -298,6 +298,27 @@ func init() {
 					"cost": int(en.Cost()), "pairs": pairsOf(en.Properties()), "bytes": ints(eb), "expires_time": timeOut(en.ExpiresTime())})
 			}
 			m["entries"] = entries
+			// indexed and by-type lookups (index range and the type codes are judged by the specification)
+			ge := []any{}
+			for i := -2; i <= len(ls.Entries())+1; i++ {
+				en, err := ls.GetEntry(i)
+				eb, _ := en.Bytes()
+				ge = append(ge, map[string]any{"i": i, "ok": err == nil, "bytes": ints(eb)})
+			}
+			m["getentry"] = ge
+			bt := []any{}
+			for _, t := range []uint8{0, 1, 3, 5, 7, 255} {
+				var bs []any
+				for _, en := range ls.FindEntriesByType(t) {
+					eb, _ := en.Bytes()
+					bs = append(bs, ints(eb))
+				}
+				if bs == nil {
+					bs = []any{}
+				}
+				bt = append(bt, map[string]any{"t": int(t), "entries": bs})
+			}
+			m["bytype"] = bt
 			s := ls.Signature()
 			m["sig"] = accSig(&s)
 			o.Acc = m
